@@ -474,10 +474,15 @@ fn hist_case<R: Scal>(s: &mut Sink, r: &mut Rng, max_len: usize) where for<'x> &
 
 /// `KNOWN?` records (a panic on an intermediate overflow although the exact result is representable; never a wrong
 /// value) are limited to a handful per run; the rest is only counted.
-static KNOWN_LEFT: std::sync::atomic::AtomicI64 = std::sync::atomic::AtomicI64::new(6);
+static KNOWN_SEEN: std::sync::Mutex<Option<std::collections::HashMap<String, i64>>> = std::sync::Mutex::new(None);
 fn known(s: &mut Sink, clause: &str, input: &str, detail: &str) {
-    if KNOWN_LEFT.fetch_sub(1, std::sync::atomic::Ordering::SeqCst) > 0 { s.oracle(false, clause, input, detail); }
-    else { s.count("nearlimit.known-suppressed"); }
+    // at most 4 records per ring tag (clause = "KNOWN? <tag> …")
+    let tag = clause.split_whitespace().nth(1).unwrap_or("?").trim_end_matches(':').to_string();
+    let mut g = KNOWN_SEEN.lock().unwrap();
+    let m = g.get_or_insert_with(Default::default);
+    let c = m.entry(tag).or_insert(0);
+    *c += 1;
+    if *c <= 4 { s.oracle(false, clause, input, detail); } else { s.count("nearlimit.known-suppressed"); }
 }
 
 /// single operations on operands near the limits of the machine type
@@ -682,12 +687,13 @@ macro_rules! impl_ratio {
                     Some(o @ (Op::Add | Op::Sub)) => {
                         if ra.0.is_zero() || rb.0.is_zero() { return false; }
                         let sg = |x: &BigInt, y: &BigInt| if o == Op::Add { x + y } else { x - y };
-                        if ra.1 == rb.1 { return !fits(&sg(&ra.0, &rb.0)); }
+                        if ra.1 == rb.1 { let v = sg(&ra.0, &rb.0); return !fits(&v) || v == lo; }   // numerator T::MIN: reduce() needs |numer|
                         // the documented algorithm: l = lcm(b, d); a·(l/b) ± (l/d)·c over l, then reduce
                         let l = ra.1.lcm(&rb.1);
                         let x = &ra.0 * (&l / &ra.1);
                         let y = (&l / &rb.1) * &rb.0;
-                        !fits(&l) || !fits(&x) || !fits(&y) || !fits(&sg(&x, &y))
+                        let v = sg(&x, &y);
+                        !fits(&l) || !fits(&x) || !fits(&y) || !fits(&v) || [&l, &x, &y, &v].iter().any(|w| **w == lo)
                     }
                     _ => false,
                 }
@@ -818,6 +824,26 @@ macro_rules! impl_quad {
             }
             fn m_neg(a: &PM) -> PM { (-&a.0, -&a.1) }
             fn m_eq(a: &PM, b: &PM) -> bool { a == b }
+            fn inherent_overflow(op: Option<Op>, x: &PM, y: &PM) -> bool {
+                // known finding F10: the product formula of qint.rs is evaluated term by term in the machine type; a panic is
+                // "explained" only if one of ITS intermediates (computed exactly here) leaves the machine range
+                if <$i as IntLike>::BITS == NO_CAP { return false; }
+                let fits = |v: &BigInt| fits_bits(v, <$i as IntLike>::BITS);
+                let (a, b) = x; let (c, d) = y;
+                match op {
+                    Some(Op::Mul) => {
+                        if b.is_zero() { return !fits(&(a * c)) || !fits(&(a * d)); }
+                        if d.is_zero() { return !fits(&(a * c)) || !fits(&(b * c)); }
+                        let e = BigInt::from($e);
+                        let (ac, bd, ad, bc) = (a * c, b * d, a * d, b * c);
+                        let bde = &bd * &e;
+                        let mut mids = vec![ac.clone(), bd.clone(), bde.clone(), &ac + &bde, ad.clone(), bc.clone(), &ad + &bc];
+                        if $f != 0 { mids.push(&ad + &bc + &bd); }
+                        mids.iter().any(|v| !fits(v))
+                    }
+                    _ => false,
+                }
+            }
             fn m_fits(m: &PM) -> bool { fits_bits(&m.0, <$i as IntLike>::BITS) && fits_bits(&m.1, <$i as IntLike>::BITS) }
             fn from_m(m: &PM) -> Option<Self> { Some($ty::<$i>::new(<$i as IntLike>::from_big(&m.0)?, <$i as IntLike>::from_big(&m.1)?)) }
             fn hist_ok(&self) -> bool { let (a, b) = self.m(); let c = Self::caps().hist.min(6000); below_pow(&a, c) && below_pow(&b, c) }
@@ -897,7 +923,8 @@ fn nl_corpus(tag: &str) -> Vec<(&'static str, &'static str)> {
             ("6442450941/4294967296", "6442450943/4294967296"), ("4611686018427387904", "1/4611686018427387904"),
             // large denominators with a large common factor: b·d overflows, lcm(b, d) and the result do not
             ("1/1099511627776", "1/2199023255552"), ("1/6000000000", "1/9000000000"), ("-3/2199023255552", "5/1099511627776"), ("7/3221225472", "1/6442450944")],
-        "G64" | "E64" => vec![("3037000499,0", "3037000499,0"), ("0,3037000499", "0,3037000499"), ("2147483648,2147483647", "2147483647,-2147483648"),
+        "G64" | "E64" => vec![("2305843009213693954,34359738368", "2,-4"),   // F10 witness: a·d overflows, the product fits
+            ("3037000499,0", "3037000499,0"), ("0,3037000499", "0,3037000499"), ("2147483648,2147483647", "2147483647,-2147483648"),
             ("9223372036854775807,0", "0,1"), ("9223372036854775806,-9223372036854775807", "1,1"), ("4611686018427387904,4611686018427387903", "1,0"), ("1000000007,998244353", "998244353,-1000000007")],
         _ => vec![],
     }
